@@ -196,6 +196,24 @@ theorem C07_mini_range_reachable (v4 : Bool) (ops : List Phys.GOp) :
     ∀ m, m < (Phys.grun g0 ops).p.miniFat.size → m / (Phys.grun g0 ops).p.per < root.length :=
   Phys.mini_range_reachable v4 ops
 
+/-- **(iii) for the reachable states, with no premise about the state left**: after any history of store
+operations and reopens from a fresh file of either version, a write inside the mini chain of one small
+stream succeeds and leaves the bytes of every other small stream — any entry with another start mini
+sector — exactly as they were (`Phys/RootReach.lean`: the chains are disjoint by the no-sharing invariant
+of the MiniFAT, their mini sectors lie inside the mini stream's chain by `RootI` and `MiniFit`) -/
+theorem C07_mini_write_frame_reachable (v4 : Bool) (ops : List Phys.GOp) :
+    let g0 : Phys.G := { p := Phys.create v4, L := fun _ => 0 }
+    Phys.WritesInRange g0 ops → Phys.MiniBounded g0 ops → (Phys.grun g0 ops).p.fat.size ≤ Raw.MAXREG + 1 →
+    ∀ e1 ∈ (Phys.grun g0 ops).p.starts, ∀ e2 ∈ (Phys.grun g0 ops).p.starts, e1.2 ≠ e2.2 →
+    (Phys.grun g0 ops).L e1.1 < Phys.CUTOFF → 0 < (Phys.grun g0 ops).L e1.1 →
+    (Phys.grun g0 ops).L e2.1 < Phys.CUTOFF → 0 < (Phys.grun g0 ops).L e2.1 →
+    ∀ l1 l2, Phys.IsChain (Phys.grun g0 ops).p.miniFat e1.2 l1 → Phys.IsChain (Phys.grun g0 ops).p.miniFat e2.2 l2 →
+    ∀ (off : Nat) (bs : Phys.Bytes), off + bs.length ≤ l1.length * 64 →
+    ∃ root p', Phys.chainIds (Phys.grun g0 ops).p (Phys.grun g0 ops).p.rootStart = .ok root ∧
+      Phys.miniChainWrite (bs.length + 2) (Phys.grun g0 ops).p l1 off bs = .ok (p', l1) ∧
+      Phys.miniBytes p' root l2 = Phys.miniBytes (Phys.grun g0 ops).p root l2 :=
+  Phys.mini_write_frame_reachable v4 ops
+
 /-- non-vacuity: a version-3 file whose mini stream is the one-sector chain [2] (eight mini sectors);
 the mini chain [5, 1, 6] of a 150-byte stream, 100 bytes written across two mini-sector boundaries
 at offset 40; the mini chain [0, 7] belongs to another stream.  The write and the read-back are
